@@ -512,6 +512,13 @@ func (t *tables) tree(text []byte) string {
 				if v == nil {
 					return "JNull"
 				}
+				if m, ok := v.(map[string]any); ok {
+					for k := range m {
+						if _, ok := hexBytes(k, 48); !ok {
+							return "(JStr LBad)" // a key that is not a public key: refused
+						}
+					}
+				}
 				return t.mapOf(v, func(k string) string {
 					if b, ok := hexBytes(k, 48); ok {
 						return t.bytesN(b)
